@@ -173,6 +173,7 @@ func VerifCtxShape(ctx *Ctx) []byte {
 	i("ipvl", ctx.ipvl)
 	i("brkD", ctx.brkD)
 	i("wl", ctx.wl)
+	i("incD", ctx.incD)
 	i("kvl", ctx.kvl)
 	i("BufAcc", ctx.BufAcc.Len())
 	i("Buf", ctx.Buf.Len())
